@@ -63,24 +63,24 @@ var discLighthouseDeny = []string{"10.0.99.0/24"}
 
 type discWorld struct {
 	*vNet
-	t         *testing.T
-	res       *vResult
-	rnd       *rand.Rand
-	names     []string
-	ovName    map[netip.Addr]string
-	unName    map[netip.AddrPort]string
-	unAddr    map[string]netip.AddrPort
-	route     map[netip.AddrPort]string
-	lhs       []string
-	lines     []map[string]any
-	inflight  []*discFlight
-	store     []*discFlight
-	roamed    map[string]bool
-	before    map[string]nebula.VerifState
-	forged    map[int]bool // datagrams whose lighthouse payload H forged
-	hk        int
-	curForged bool
-	hseq      [][2]int
+	res         *vResult
+	rnd         *rand.Rand
+	names       []string
+	ovName      map[netip.Addr]string
+	unName      map[netip.AddrPort]string
+	unAddr      map[string]netip.AddrPort
+	route       map[netip.AddrPort]string
+	lhs         []string
+	lines       []map[string]any
+	inflight    []*discFlight
+	store       []*discFlight
+	beforeKnown map[string][][]string
+	before      map[string]nebula.VerifState
+	keys        map[string]*nebula.VerifKeyring // tunnels each node held after its previous step
+	forged      map[int]bool                    // datagrams whose lighthouse payload H forged
+	hk          int
+	curForged   bool
+	hseq        [][3]int
 }
 
 type discFlight struct {
@@ -92,8 +92,8 @@ func discAP(s string) netip.AddrPort { return netip.MustParseAddrPort(s) }
 
 func discNewWorld(t *testing.T, res *vResult, rnd *rand.Rand, variant int) *discWorld {
 	n := vNewNet(t)
-	w := &discWorld{vNet: n, t: t, res: res, rnd: rnd, ovName: map[netip.Addr]string{}, unName: map[netip.AddrPort]string{}, unAddr: map[string]netip.AddrPort{},
-		route: map[netip.AddrPort]string{}, roamed: map[string]bool{}, before: map[string]nebula.VerifState{}, forged: map[int]bool{}}
+	w := &discWorld{vNet: n, res: res, rnd: rnd, ovName: map[netip.Addr]string{}, unName: map[netip.AddrPort]string{}, unAddr: map[string]netip.AddrPort{},
+		route: map[netip.AddrPort]string{}, beforeKnown: map[string][][]string{}, before: map[string]nebula.VerifState{}, forged: map[int]bool{}, keys: map[string]*nebula.VerifKeyring{}}
 	for k, v := range discOverlay {
 		w.ovName[netip.MustParseAddr(v)] = k
 	}
@@ -109,7 +109,10 @@ func discNewWorld(t *testing.T, res *vResult, rnd *rand.Rand, variant int) *disc
 	if variant%4 == 1 {
 		w.lhs = []string{"L", "L2"}
 	}
-	interval := []int{3, 600, 5, 2}[variant%4]
+	// variant 2 runs the connection manager on a 4 s check: its 500 ms ticker is phase-aligned with the second-grained update
+	// ticker (both start in Control.Start) and the two goroutines would race for the tunnel's traffic flags at the same
+	// virtual instant, so that variant sends updates only after handshakes with the lighthouse
+	interval := []int{3, 600, 600, 2}[variant%4]
 	timers := m{"connection_alive_interval": 3600, "pending_deletion_interval": 3600}
 	punchy := m{"punch": true, "respond": false, "delay": "1s"}
 	counters := m{}
@@ -118,7 +121,7 @@ func discNewWorld(t *testing.T, res *vResult, rnd *rand.Rand, variant int) *disc
 		punchy = m{"punch": true, "respond": true, "delay": "500ms", "respond_delay": "2s", "target_all_remotes": variant%8 == 6}
 		counters = m{"try_promote": 3, "requery_every_packets": 4}
 	}
-	hs := m{"try_interval": "100ms", "retries": 6}
+	hs := m{"try_interval": "130ms", "retries": 6} // not a divisor of the second-grained timers: ticks of two timers of a node never coincide
 	deny := func(l []string) m {
 		o := m{}
 		for _, p := range l {
@@ -132,8 +135,13 @@ func discNewWorld(t *testing.T, res *vResult, rnd *rand.Rand, variant int) *disc
 		static[discOverlay[l]] = []any{w.unAddr["u"+l].String()}
 	}
 	for _, l := range w.lhs {
-		n.AddNode(cert.Version2, l, discOverlay[l]+"/24", m{"lighthouse": m{"am_lighthouse": true, "remote_allow_list": deny(discLighthouseDeny)},
-			"timers": timers, "punchy": punchy, "handshakes": hs})
+		ov := m{"lighthouse": m{"am_lighthouse": true, "remote_allow_list": deny(discLighthouseDeny)},
+			"timers": timers, "punchy": punchy, "handshakes": hs}
+		if discStaleStatic(variant) && l == "L" {
+			// strict reading only: the lighthouse has a stale static entry for B that points at an address where H answers
+			ov["static_host_map"] = m{discOverlay["B"]: []any{w.unAddr["e1"].String()}}
+		}
+		n.AddNode(cert.Version2, l, discOverlay[l]+"/24", ov)
 	}
 	for _, name := range []string{"A", "B", "C", "H"} {
 		lh := m{"hosts": lhHosts, "interval": interval, "remote_allow_list": deny(discOrdinaryDeny)}
@@ -211,12 +219,20 @@ func (w *discWorld) reset(variant int) {
 		}
 	}
 	denyPeer = append(denyPeer, []string{"A", "B", "dAB"})
+	if discStaleStatic(variant) {
+		static = append(static, []string{"L", "B", "e1"})
+	}
 	static = append(static, []string{"A", "L", "dS"})
 	adv = [][]string{{"A", "uA"}, {"B", "uB"}, {"B", "uB2"}, {"B", "dL"}, {"C", "uC"}, {"C", "uC6"}, {"C", "dA"}, {"H", "uH"}}
 	hostile := []string{"H"}
 	w.lines = append(w.lines, map[string]any{"ev": "reset", "amlh": amlh, "lhs": lhs, "hostile": hostile, "deny": deny, "denyPeer": denyPeer,
-		"static": static, "adv": adv, "respond": respond})
+		"static": static, "adv": adv, "respond": respond, "strict": discStrict()})
 }
+
+func discStrict() bool { return os.Getenv("VERIF_DISC_LENIENT") != "1" } // strict is the default reading
+
+// discStaleStatic: traces in which (strict reading only) the lighthouse itself handshakes towards a wrong host
+func discStaleStatic(variant int) bool { return discStrict() && variant%4 == 3 }
 
 // ---- naming ----------------------------------------------------------------------------------------------------------
 
@@ -231,6 +247,9 @@ func (w *discWorld) ov(a netip.Addr) string {
 }
 
 func (w *discWorld) ovs(s string) string {
+	if s == "" {
+		return ""
+	}
 	a, err := netip.ParseAddr(s)
 	if err != nil {
 		return "?" + s
@@ -258,7 +277,7 @@ func (w *discWorld) stim(k, from, src, mt, x string, addrs []string) map[string]
 	if addrs == nil {
 		addrs = []string{}
 	}
-	return map[string]any{"k": k, "from": from, "src": src, "mt": mt, "x": x, "addrs": addrs}
+	return map[string]any{"k": k, "from": from, "src": src, "mt": mt, "x": x, "addrs": addrs, "fresh": false}
 }
 
 func discKind(t header.MessageType) string {
@@ -290,7 +309,9 @@ func (w *discWorld) classify(nd *vNode, d *vDatagram, from netip.AddrPort) map[s
 	switch h.Type {
 	case header.Handshake:
 		if h.MessageCounter == 1 {
-			return w.stim("hs1", d.Node, src, "", "", nil)
+			st := w.stim("hs1", d.Node, src, "", "", nil)
+			st["hsname"] = nebula.VerifMsgName(d.Data[header.Len:])
+			return st
 		}
 		return w.stim("hs2", d.Node, src, "", w.ovs(nd.Ctrl.VerifPendingOf(h.RemoteIndex)), nil)
 	case header.RecvError:
@@ -356,6 +377,12 @@ func (w *discWorld) emitted(nd *vNode, d *vDatagram, st, before nebula.VerifStat
 	out["k"] = "enc"
 	o, ok := nd.Ctrl.VerifOpenSent(d.Data)
 	if !ok {
+		o, ok = w.keys[nd.Name].OpenSent(d.Data) // a tunnel the node deleted in this very step
+		if ok {
+			out["peer"] = o.Peer
+		}
+	}
+	if !ok {
 		// the tunnel is already gone at the sender: ask the other nodes (the peer is whoever can open it)
 		for _, nm := range w.names {
 			if nm == nd.Name {
@@ -405,6 +432,21 @@ func (w *discWorld) emitted(nd *vNode, d *vDatagram, st, before nebula.VerifStat
 
 func (w *discWorld) logStep(nd *vNode, stim map[string]any) {
 	st := nd.Ctrl.VerifProject()
+	if name, ok := stim["hsname"].(string); ok {
+		// a stage 1 is fresh when it made a tunnel that was not there before the step
+		delete(stim, "hsname")
+		had := false
+		for _, t := range w.before[nd.Name].Tunnels {
+			if !t.Initiator && t.Hs1 == name {
+				had = true
+			}
+		}
+		for _, t := range st.Tunnels {
+			if !t.Initiator && t.Hs1 == name && !had {
+				stim["fresh"] = true
+			}
+		}
+	}
 	tset, pset := map[string]bool{}, map[string]bool{}
 	for _, t := range st.Tunnels {
 		tset[t.CertName] = true
@@ -429,9 +471,38 @@ func (w *discWorld) logStep(nd *vNode, stim map[string]any) {
 		}
 	}
 	sort.Slice(known, func(i, j int) bool { return fmt.Sprint(known[i]) < fmt.Sprint(known[j]) })
+	if stim["k"] == "hs1" && stim["fresh"] == false {
+		for _, e := range known {
+			if e[0] == stim["from"] && e[1] == stim["from"] && e[2] == "lrn" && e[3] == stim["src"] {
+				was := false
+				for _, p := range w.beforeKnown[nd.Name] {
+					if p[0] == e[0] && p[1] == e[1] && p[2] == e[2] && p[3] == e[3] {
+						was = true
+					}
+				}
+				if !was {
+					w.res.Hit("observed:learned-from-refused-stage1")
+				}
+			}
+		}
+	}
+	w.beforeKnown[nd.Name] = known
 	out := []map[string]any{}
+	// what a node emits in one step is put into a canonical order: goroutines of the node run in an order the harness does
+	// not control, the schedule that follows must not depend on it
+	type emitted struct {
+		o   map[string]any
+		d   *vDatagram
+		key string
+	}
+	var ems []emitted
 	for _, d := range nd.TakeUDP() {
 		o := w.emitted(nd, d, st, w.before[nd.Name])
+		ems = append(ems, emitted{o, d, fmt.Sprint(o["to"], "|", o["k"], "|", o["peer"], "|", o["mt"], "|", o["x"], "|", o["addrs"], "|", len(d.Data), "|", d.H.MessageCounter)})
+	}
+	sort.SliceStable(ems, func(i, j int) bool { return ems[i].key < ems[j].key })
+	for _, em := range ems {
+		o, d := em.o, em.d
 		out = append(out, o)
 		w.inflight = append(w.inflight, &discFlight{d: d, from: d.From})
 		if o["k"] == "punch0" {
@@ -439,10 +510,14 @@ func (w *discWorld) logStep(nd *vNode, stim map[string]any) {
 		}
 		if o["k"] == "enc" {
 			w.res.Hit("sent:" + o["mt"].(string))
+			if o["mt"] == "undecodable" {
+				w.res.Hit("undecodable-sent")
+			}
 		}
 	}
 	nd.TakeTun()
 	w.before[nd.Name] = st
+	w.keys[nd.Name] = nd.Ctrl.VerifKeyring()
 	w.lines = append(w.lines, map[string]any{"ev": "Step", "n": nd.Name, "stim": stim, "tuns": tuns, "pend": pend, "known": known, "out": out})
 	if stim["k"] == "enc" {
 		mt := stim["mt"].(string)
@@ -555,6 +630,14 @@ func discDrive(w *discWorld, steps, tr int) {
 		tag++
 		w.tunSend(w.Nodes[from], to, tag)
 	}
+	if discStaleStatic(tr) {
+		// before anybody has registered: the lighthouse's own handshake for B goes to the stale address, H answers it
+		w.inflight = nil
+		send("L", "B")
+		w.pump(4)
+		send("A", "B") // and A asks the lighthouse about B
+		w.pump(4)
+	}
 	// prologue: let the nodes register with the lighthouse (most traces), then two of them want each other
 	if tr%4 != 3 {
 		w.pump(6)
@@ -596,7 +679,9 @@ func discDrive(w *discWorld, steps, tr int) {
 			// (type x kind of target in a shuffled round robin so that every combination occurs)
 			if len(w.hseq) == 0 {
 				for ty := range discLhTypes {
-					w.hseq = append(w.hseq, [2]int{ty, 0}, [2]int{ty, 1})
+					for enc := 0; enc < 2; enc++ {
+						w.hseq = append(w.hseq, [3]int{ty, 0, enc}, [3]int{ty, 1, enc})
+					}
 				}
 				rnd.Shuffle(len(w.hseq), func(i, j int) { w.hseq[i], w.hseq[j] = w.hseq[j], w.hseq[i] })
 			}
@@ -606,12 +691,19 @@ func discDrive(w *discWorld, steps, tr int) {
 				tg = w.lhs[rnd.Intn(len(w.lhs))]
 			}
 			typ := discLhTypes[combo[0]]
-			x := subjects[rnd.Intn(len(subjects))]
+			x := ordinary[rnd.Intn(3)] // mostly: claims about an honest node
+			if rnd.Intn(5) < 2 {
+				x = subjects[rnd.Intn(len(subjects))]
+			}
 			var about netip.Addr
 			if x != "" {
 				about = netip.MustParseAddr(discOverlay[x])
 			}
-			payload := nebula.VerifLighthouseMsg(typ, about, w.pickAddrs(hostilePool, 3), nil, rnd.Intn(4) == 0)
+			addrs := w.pickAddrs(hostilePool, 3)
+			if len(addrs) == 0 && rnd.Intn(3) != 0 {
+				addrs = w.pickAddrs(hostilePool[:6], 1)
+			}
+			payload := nebula.VerifLighthouseMsg(typ, about, addrs, nil, combo[2] == 1)
 			h := w.Nodes["H"]
 			if h.Ctrl.VerifSendOnTunnel(header.LightHouse, 0, netip.MustParseAddr(discOverlay[tg]), payload) {
 				discWait()
@@ -681,7 +773,7 @@ func TestVerif_Disc(t *testing.T) {
 	seed := vSeed()
 	traces, steps := 10, 160
 	if !vQuick() {
-		traces, steps = 60, 240
+		traces, steps = 480, 280
 	}
 	if s := os.Getenv("VERIF_DISC_TRACES"); s != "" {
 		fmt.Sscan(s, &traces)
